@@ -660,6 +660,10 @@ func (g *G) ReqCtx(m *rm.Model) map[string]any {
 	if g.Chance(0.1) {
 		ctx["unused_key"] = "z"
 	}
+	if len(ctx) == 0 || g.Chance(0.05) {
+		// a context that is present and empty
+		return map[string]any{rm.PresentButEmpty: true}
+	}
 	return ctx
 }
 
